@@ -4,6 +4,25 @@ _NOTE = ('Trusted: CPython ast, mypy-inferred receiver types (callee resolution)
          'modules. Decides only the structural clauses named; runtime values, timing and histories are not decided.')
 
 CLAIMS = {
+    'C15': {
+        'text': 'For every NLRI class compared by index(): what __hash__ hashes is covered by what index() is built from; index() '
+                'separates the ADD-PATH variants by distinct constant markers; every registered NLRI / attribute has its '
+                'pack/unpack/index/json (not the raising stub); renderers are deterministic (no set iteration, id, hash, clock); '
+                'no __eq__ compares a field with itself; the AS_PATH 2-byte detour keeps the path. Not decided: value-level round '
+                'trips for every family and attribute.',
+        'note': _NOTE,
+        'technique': 'MRO-effective member lookup + operand-set comparison of __eq__/index/__hash__, registry completeness, typed iteration checks',
+    },
+    'C18': {
+        'text': 'Conversion points: Section.parse turns ValueError into a located error, reload() and the API callbacks have '
+                'catch-alls (C14.R1, C17.R1); truncating factories are range-guarded on every parser path (labels, with helper '
+                'functions followed); inventory of every packed integer with its guard-derived bound (overflow raises, never '
+                'wraps); the shared validity check runs for API commands and at encode time (known finding F29: not for the '
+                'configuration file); 4-byte ASNs accepted and AS paths built 4 bytes wide. Not decided: acceptance of every '
+                'token sequence.',
+        'note': _NOTE,
+        'technique': 'interval upper bounds from dominating range guards, pack-format width table, def-use into lossy factories, call-site presence checks',
+    },
     'C16': {
         'text': 'FlowSpec: ascending component order, EOL cleared on all and set on the last operator, AND bit untouched, RD first; '
                 'value width thresholds and the power/rewop tables; component registry 1-13 by family; NLRI length writer and '
